@@ -823,11 +823,22 @@ class Machine:
     def i_cvttsd2sil(self, s, ops): self._cvt_f2i(s, ops, 64, 32)
     def i_cvttsd2siq(self, s, ops): self._cvt_f2i(s, ops, 64, 64)
 
+    def _xm(self, s, o, prec):
+        """scalar floating operand of precision prec: an xmm register or a memory operand"""
+        if o[0] == 'mem':
+            v = self.load(s, o, prec)
+            if v[0] == 'fval' and v[1] == prec:
+                return v[2]
+            if v[0] == 'mem':
+                return ('fmem', prec, v[2])
+            return ('frombits', prec, v)
+        return self._x(s, o)
+
     def i_cvtss2sd(self, s, ops):
-        s.xmm[ops[1][1]] = ('f2f', 32, 64, self._x(s, ops[0]))
+        s.xmm[ops[1][1]] = ('f2f', 32, 64, self._xm(s, ops[0], 32))
 
     def i_cvtsd2ss(self, s, ops):
-        s.xmm[ops[1][1]] = ('f2f', 64, 32, self._x(s, ops[0]))
+        s.xmm[ops[1][1]] = ('f2f', 64, 32, self._xm(s, ops[0], 64))
 
     # ---- x87 ---------------------------------------------------------------------------
     def _fld(self, s, ops, prec):
